@@ -231,9 +231,20 @@ def ob_klatt_concrete():
     return Ob("klattgrid-files-concrete", I("m"), check, kind="smt", smt=run, timeout=600, funcs=FUNCS[1:4], bounds="concrete cross-check: reference KlattGrid, open/modify/save/open/save with scalings by non-terminating decimals, tiny and huge magnitudes, integer and zero constants, sign change")
 
 
-def _synthetic(vals):
-    """a small KlattGrid as Praat writes it, whose LAST tier (gain) holds points"""
+def _synthetic(vals, nf=1):
+    """a small KlattGrid as Praat writes it, whose LAST tier (gain) holds points; nf = number
+    of oral formants (0: the container has no sub-tiers at all)"""
     t, v1, v2, v3, g = vals
+    if nf != 1:
+        def sub(name, v):
+            out = "%s: size = %d \n" % (name, nf)
+            for i in range(nf):
+                out += "%s [%d]:\n    xmin = 0 \n    xmax = 1 \n    points: size = 1 \n    points [1]:\n        number = %s \n        value = %s \n" % (name, i + 1, t, v)
+            return out
+        return ('File type = "ooTextFile"\nObject class = "KlattGrid"\n\nxmin = 0 \nxmax = 1 \n'
+                'pitch? <exists> \nxmin = 0 \nxmax = 1 \npoints: size = 1 \npoints [1]:\n    number = ' + t + ' \n    value = ' + v1 + ' \n'
+                'oral_formants? <exists> \nxmin = 0 \nxmax = 1 \n' + sub("formants", v2) + sub("bandwidths", v3) +
+                'gain? <exists> \nxmin = 0 \nxmax = 1 \npoints: size = 2 \npoints [1]:\n    number = 0.25 \n    value = 7 \npoints [2]:\n    number = ' + t + ' \n    value = ' + g + ' \n')
     return ('File type = "ooTextFile"\nObject class = "KlattGrid"\n\nxmin = 0 \nxmax = 1 \n'
             'pitch? <exists> \nxmin = 0 \nxmax = 1 \npoints: size = 1 \npoints [1]:\n    number = ' + t + ' \n    value = ' + v1 + ' \n'
             'oral_formants? <exists> \nxmin = 0 \nxmax = 1 \nformants: size = 1 \nformants [1]:\n    xmin = 0 \n    xmax = 1 \n    points: size = 1 \n    points [1]:\n        number = ' + t + ' \n        value = ' + v2 + ' \n'
@@ -245,14 +256,19 @@ SYN = [("0.5", "98.5", "50", "7", "60.25"), ("0.30000000000000004", "1e-05", "25
 
 
 def ob_klatt_synthetic_concrete():
-    def check(i):
+    def check(i, nf=1):
         d = tempfile.mkdtemp(prefix="verif_c19_")
         try:
-            kg = kgio._openNormalKlattgrid(_synthetic(SYN[i]))
+            kg = kgio._openNormalKlattgrid(_synthetic(SYN[i], nf))
             want = _dump(kg)
             last = want[-1][3]
             if last != [(0.25, 7.0), (float(SYN[i][0]), float(SYN[i][4]))]:
                 return "last tier read as %r" % (last,)
+            cont = [x for x in want if x[0] == "oral_formants"]
+            if len(cont) != 1 or [(n2, len(subs)) for n2, subs in cont[0][3]] != [("formants", nf), ("bandwidths", nf)]:
+                return "oral_formants with %d formants read as %r" % (nf, cont)
+            if (cont[0][1], cont[0][2]) != (0.0, 1.0):
+                return "span of the oral_formants container read as %r" % ((cont[0][1], cont[0][2]),)
             fn = os.path.join(d, "a.KlattGrid")
             kg.save(fn)
             back = kgio.openKlattgrid(fn)
@@ -267,16 +283,19 @@ def ob_klatt_synthetic_concrete():
             shutil.rmtree(d, ignore_errors=True)
 
     def run():
-        for i in range(len(SYN)):
-            try:
-                r = check(i)
-            except Exception as ex:  # noqa
-                r = "exception " + type(ex).__name__ + ": " + str(ex)[:100]
-            if r is not True:
-                return {"verdict": "REFUTED", "queries": i + 1, "cex_args": {"i": i}, "message": str(r), "refute_kind": "CONCRETE"}
-        return {"verdict": "CONFIRMED", "queries": len(SYN), "detail": "concrete cross-check"}
+        n = 0
+        for nf in (1, 0, 2, 3, 11):
+            for i in range(len(SYN)):
+                n += 1
+                try:
+                    r = check(i, nf)
+                except Exception as ex:  # noqa
+                    r = "exception " + type(ex).__name__ + ": " + str(ex)[:100]
+                if r is not True:
+                    return {"verdict": "REFUTED", "queries": n, "cex_args": {"i": i, "nf": nf}, "message": str(r), "refute_kind": "CONCRETE"}
+        return {"verdict": "CONFIRMED", "queries": n, "detail": "concrete cross-check"}
 
-    return Ob("klattgrid-synthetic-concrete", I("i"), check, kind="smt", smt=run, timeout=120, funcs=FUNCS[1:4], bounds="concrete cross-check: synthetic KlattGrids whose last tier holds points (values with 17 digits, exponents, integers, zero, negative)")
+    return Ob("klattgrid-synthetic-concrete", I("i", "nf"), check, kind="smt", smt=run, timeout=120, funcs=FUNCS[1:4], bounds="concrete cross-check: synthetic KlattGrids with 0, 1, 2, 3 and 11 oral formants whose last tier holds points (values with 17 digits, exponents, integers, zero, negative)")
 
 
 PTS = [[], [(0.5, 100.0)], [(1.2345678901234567e-05, 3e-17), (0.1 + 0.2, 5e-324), (7.0, 75.0), (1e16, 1.7976931348623157e308)], [(0.25, 0.0), (1 / 3.0, 2 / 3.0)]]
